@@ -126,7 +126,7 @@ def register_l1(ctx, files, shard_histories=4000):
                 continue
             recs.append(line)
             r = json.loads(line)
-            h = dict(init=r["init"], final=r["final"],
+            h = dict(init=r["init"], final=r["final"], init_absent=bool(r.get("init_absent")), final_absent=bool(r.get("final_absent")),
                      events=[e for e in r["events"] if e["ev"] in ("call", "ret") and e.get("op") in ("read", "write", "transform")])
             k = json.dumps(h, sort_keys=True)
             if k not in uniq:
